@@ -91,11 +91,55 @@ def frame_class(cls):
 FATAL = ("handle_connection_error_on_stream", "handle_connection_error", "set_conn_error_and_wake", "set_conn_error")
 
 
+_SUMMARY = {}
+_STACK = set()
+
+
+def callee_effect(prog, key, depth=2):
+    """(fatal, codes) if EVERY returning path of the in-workspace function `key` raises a connection error
+    with the same code set (so that an arm body moved into a private helper is still understood); else None."""
+    k = (id(prog), key)
+    if k in _SUMMARY:
+        return _SUMMARY[k]
+    if key in _STACK or depth <= 0:
+        return None
+    body = prog.one(key)
+    if body is None or body.coroutine:
+        _SUMMARY[k] = None
+        return None
+    _STACK.add(key)
+    res = None
+    try:
+        ps = [p for p in pa.Explorer(prog, body, max_visits=1, max_paths=2000).paths() if p.end == "return"]
+        outs = {(_fatal_direct(prog, p, depth - 1)) for p in ps}
+        if len(outs) == 1:
+            f, codes = next(iter(outs))
+            if f:
+                res = (True, codes)
+    except pa.PathExplosion:
+        res = None
+    _STACK.discard(key)
+    _SUMMARY[k] = res
+    return res
+
+
+def _fatal_direct(prog, p, depth):
+    fatal = bool(p.calls(*FATAL)) or bool(pa.closure_calls(prog, p, *FATAL))
+    codes = set(p.codes("new", "agg:InternalConnectionError::InternalConnectionError")) if fatal else set()
+    for e in p.calls():
+        ck = e[2].ckey
+        if not ck or e[2].cname in FATAL or ck not in prog.by_key:
+            continue
+        eff = callee_effect(prog, ck, depth)
+        if eff:
+            fatal = True
+            codes |= set(eff[1])
+    return fatal, frozenset(codes)
+
+
 def outcome(prog, p):
     """(return shape, codes raised as connection errors, other (callee, code) uses, fatal?, markers)."""
-    fatal = [e for e in p.calls(*FATAL)]
-    cl_fatal = pa.closure_calls(prog, p, *FATAL)
-    codes_new = set(p.codes("new", "agg:InternalConnectionError::InternalConnectionError"))
+    fatal, codes_new = _fatal_direct(prog, p, 2)
     other = {(u, c) for (u, c) in p.code_uses() if u not in ("new", "agg:InternalConnectionError::InternalConnectionError")
              and u not in FATAL}
     markers = []
@@ -107,4 +151,4 @@ def outcome(prog, p):
             if n not in markers:
                 markers.append(n)
     shape = p.ret_shape() if p.end == "return" else p.end
-    return (shape, frozenset(codes_new) if (fatal or cl_fatal) else frozenset(), frozenset(other), bool(fatal or cl_fatal), tuple(markers))
+    return (shape, frozenset(codes_new), frozenset(other), bool(fatal), tuple(markers))
